@@ -174,6 +174,13 @@ def run(tier, seed):
             for sv in vecs:
                 one(ctx, C, LP, Fc, klass, fam, sv, tol)
             one(ctx, C, LP, Fc, klass, fam, None, tol)
+            # call history: a slightly different F of the same length right after (state kept between
+            # calls must not leak from one completion into the next)
+            if rng.random() < 0.5:
+                F2 = list(Fc)
+                F2[int(rng.integers(0, len(F2)))] += float(rng.choice([2e-4, -3e-5, 1e-6]))
+                fam2 = fam and (sum(abs(x) for x in F2) <= 0.9) and abs(F2[0]) >= 1e-3 and abs(F2[-1]) >= 1e-3
+                one(ctx, C, LP, F2, klass + "/near-duplicate", fam2, vecs[int(rng.integers(0, len(vecs)))], tol)
     ctx.assumptions = ["that the floating-point root finder succeeds on the stated family is explored with complete seed enumeration (n<=%d), not proved" % exh]
     return ctx.finish(
         rule="real F of length n+1 (symmetric / antisymmetric / asymmetric; 1-norm in (0,2.5]; extreme coefficients above or below 1e-3) x "
